@@ -996,6 +996,19 @@ pub fn generate(prop: &str, tier: &str, seed: u64, out: &mut impl Write) {
                     w!("#@ C14 {tr} {} {} {} {}", dname(d), hex_of(&noise), hex_of(&f), hex_of(&rest));
                 } } }
             }
+            // a few stray bytes, then a complete MBAP frame whose own length field, read two bytes early, looks like
+            // a function code with a long payload: the stray candidate's header is refutable at once (protocol id / length)
+            for stray in [1usize, 2, 3, 4, 7, 100, 255] { for v in [0x42u8, 0xEE, 0xFF] { for (d, tid, uid, pdu) in [
+                (Dir::Rsp, 1u16, 0x11u8, vec![0x83u8, 0x02]), (Dir::Rsp, 0x1234, 0x20, vec![0x01, 0x01, 0x05]), (Dir::Rsp, 0x4242, 0xF0, vec![0x07, 0x5A]),
+                (Dir::Req, 0x0102, 0x09, { let mut p = vec![0x10u8, 0, 1, 0, 8, 16]; p.extend([0xF0u8; 16]); p }), (Dir::Req, 7, 0x42, vec![0x03, 0, 1, 0, 2]),
+            ] {
+                let f = tcp_frame(tid, uid, &pdu); let noise = vec![v; stray];
+                let mut buf = noise.clone(); buf.extend(&f);
+                w!("tcpscan {} {}", dname(d), hex_of(&buf)); w!("tcpdec {} {}", dname(d), hex_of(&buf));
+                w!("#@ C14 tcp {} {} {} -", dname(d), hex_of(&noise), hex_of(&f));
+            } } }
+            // garbage whose candidate at offset 0 announces a long frame although its MBAP header is visibly not Modbus
+            for n in [20usize, 263, 300] { let mut b = vec![0xFFu8; n]; b[7] = 0x01; w!("tcpscan rsp {}", hex_of(&b)); w!("#@ C14 tcp rsp {} - -", hex_of(&b)); }
             // pure garbage of every length around the give-up threshold
             for tr in ["rtu", "tcp"] { for d in [Dir::Req, Dir::Rsp] { for n in [1usize, 2, 10, 254, 255, 256, 257, 258, 300, 600] { for v in [0x42u8, 0x00, 0x99] {
                 let b = vec![v; n];
